@@ -31,13 +31,14 @@ CHECKS = {
             {"name": "TestC01Wide", "quick": 15, "thorough": 2880, "min_per_shard": 10},
             {"name": "TestC01Mid", "quick": 1500, "thorough": 288000},
             {"name": "TestC01ManyFields", "quick": 150, "thorough": 14400},
+            {"name": "TestC01Huge", "quick": 3, "thorough": 240, "min_per_shard": 3},
             {"name": "TestC01Regress", "quick": 0},
         ],
         "assumptions": COMMON_ASSUMPTIONS,
     },
     "C02": {
         "level": "exploration",
-        "tests": fam("C02", (2500, 480000), (25, 4800), (10, 1920), regress=False, mid=(1200, 230400), extra=({"name": "TestC02ManyFields", "quick": 60, "thorough": 5760, "min_per_shard": 20},)),
+        "tests": fam("C02", (2500, 480000), (25, 4800), (10, 1920), regress=False, mid=(1200, 230400), extra=({"name": "TestC02ManyFields", "quick": 60, "thorough": 5760, "min_per_shard": 20}, {"name": "TestC02Huge", "quick": 2, "thorough": 96, "min_per_shard": 2})),
         "assumptions": COMMON_ASSUMPTIONS,
     },
     "C03": {
@@ -57,7 +58,7 @@ CHECKS = {
     },
     "C05": {
         "level": "exploration",
-        "tests": [{"name": "TestC05Small", "quick": 8000, "thorough": 1920000}, {"name": "TestC05Wide", "quick": 300, "thorough": 72000},
+        "tests": [{"name": "TestC05Small", "quick": 8000, "thorough": 1920000}, {"name": "TestC05Wide", "quick": 300, "thorough": 72000}, {"name": "TestC05Huge", "quick": 12, "thorough": 960, "min_per_shard": 6},
                   {"name": "TestC05Regress", "quick": 0}],
         "assumptions": COMMON_ASSUMPTIONS + ["Advance targets are > the last returned document and non-decreasing (API contract); ReplaceActual only before the first step, with a subset of ActualBitmap(), on a non-1-hit iterator"],
     },
@@ -94,7 +95,7 @@ CHECKS = {
     },
     "C07": {
         "level": "exploration",
-        "tests": [{"name": "TestC07Small", "quick": 3000, "thorough": 576000}, {"name": "TestC07Wide", "quick": 250, "thorough": 28800}, {"name": "TestC07Mid", "quick": 1000, "thorough": 192000}],
+        "tests": [{"name": "TestC07Small", "quick": 3000, "thorough": 576000}, {"name": "TestC07Wide", "quick": 250, "thorough": 28800}, {"name": "TestC07Mid", "quick": 1000, "thorough": 192000}, {"name": "TestC07Huge", "quick": 6, "thorough": 480, "min_per_shard": 3}],
         "assumptions": COMMON_ASSUMPTIONS + ["document numbers passed to VisitDocumentValues are < Count()"],
     },
     "C12": {
